@@ -143,6 +143,16 @@ CHECKS = {
         "(APK v2 digests never compared).",
    technique="TLA+ oracle table checked by TLC; byte-mutation sweep on real signed artifacts through the real verifier",
    engine="tamper"),
+ "C17": dict(cat="model_checking", design="§4 C17",
+   text="spec/ZipArchive.tla enumerates abstract archives (member shapes x end-record shapes) and operation histories with "
+        "PrefixStable, DeleteRemoves and ReEmitIdentity checked by TLC (3 negative controls). Binding: each generated archive is "
+        "concretised by a harness-owned ZIP writer; lib/zipslicer reads it in random-access and stream mode and performs the history "
+        "with its own writer; after every step Go's archive/zip and Python's zipfile must agree with relic on names, offsets, sizes, "
+        "CRCs and contents, and the unmodified directory must re-serialise to the original bytes.",
+   note="Sampled shape space (hash-selected by seed); small member sizes; documented-unsupported shapes may be refused. Trusted: the "
+        "harness ZIP writer (validated by the two standard readers on every archive).",
+   technique="TLA+ shape/history enumeration by TLC; behaviours replayed on the real zipslicer with two standard readers as oracles",
+   engine="zip"),
 }
 
 NOT_YET = {}
